@@ -29,12 +29,13 @@ Record pst := PS {
   p_log : list (Z * N);             (* ghost: (clock, command) executed, newest first *)
   p_loaded : bool;                  (* an instance of the plugin is loaded *)
   p_done : list N;                  (* ghost: one-shot requests whose function fired (entry consumed, dict entry deleted), newest first *)
-  p_ign : bool }.                   (* input: the user who scheduled the events is ignored now (ircdb.checkIgnored) *)
+  p_ign : bool;
+  p_bad : list N }.                 (* input: requests whose command text does not tokenize (SyntaxError in f) *)                   (* input: the user who scheduled the events is ignored now (ircdb.checkIgnored) *)
 
-Definition pinit : pst := PS [] 0%N 0 0%N [] [] 0%N [] true [] false.
+Definition pinit : pst := PS [] 0%N 0 0%N [] [] 0%N [] true [] false [].
 
-Definition set_sched x s := PS x (p_counter s) (p_now s) (p_gen s) (p_dict s) (p_pickle s) (p_ncmd s) (p_log s) (p_loaded s) (p_done s) (p_ign s).
-Definition set_dict x s := PS (p_sched s) (p_counter s) (p_now s) (p_gen s) x (p_pickle s) (p_ncmd s) (p_log s) (p_loaded s) (p_done s) (p_ign s).
+Definition set_sched x s := PS x (p_counter s) (p_now s) (p_gen s) (p_dict s) (p_pickle s) (p_ncmd s) (p_log s) (p_loaded s) (p_done s) (p_ign s) (p_bad s).
+Definition set_dict x s := PS (p_sched s) (p_counter s) (p_now s) (p_gen s) x (p_pickle s) (p_ncmd s) (p_log s) (p_loaded s) (p_done s) (p_ign s) (p_bad s).
 
 Fixpoint dhas (k : name) (d : list (name * pev)) : bool :=
   match d with [] => false | (k', _) :: d' => name_eqb k' k || dhas k d' end.
@@ -51,7 +52,7 @@ Definition shas (n : name) (l : list sent) : bool := existsb (fun e => name_eqb 
 (* schedule.addEvent(f, t, name) *)
 Definition s_add (t : Z) (nm : option name) (cmd : N) (rem : bool) (period : option Z) (s : pst) : pst * res name :=
   let '(n, s1) := match nm with
-                  | None => (Auto (p_counter s), PS (p_sched s) (p_counter s + 1)%N (p_now s) (p_gen s) (p_dict s) (p_pickle s) (p_ncmd s) (p_log s) (p_loaded s) (p_done s) (p_ign s))
+                  | None => (Auto (p_counter s), PS (p_sched s) (p_counter s + 1)%N (p_now s) (p_gen s) (p_dict s) (p_pickle s) (p_ncmd s) (p_log s) (p_loaded s) (p_done s) (p_ign s) (p_bad s))
                   | Some n => (n, s)
                   end in
   if shas n (p_sched s1) then (s1, Raise AssertionError)
@@ -72,14 +73,14 @@ Definition p_repeat (n : name) (period : Z) (cmd : N) (first nri : Z) (s : pst) 
   end.
 
 Definition fresh_cmd (s : pst) : N * pst :=
-  (p_ncmd s, PS (p_sched s) (p_counter s) (p_now s) (p_gen s) (p_dict s) (p_pickle s) (p_ncmd s + 1)%N (p_log s) (p_loaded s) (p_done s) (p_ign s)).
+  (p_ncmd s, PS (p_sched s) (p_counter s) (p_now s) (p_gen s) (p_dict s) (p_pickle s) (p_ncmd s + 1)%N (p_log s) (p_loaded s) (p_done s) (p_ign s) (p_bad s)).
 
 (* die(): _flush() pickles self.events; then (repaired plugin, C18.F24) every event of self.events is removed from the
    schedule:  for (name, event) in self.events.items(): schedule.removeEvent(int(name) | name), KeyError ignored.
    [unsched] says whether die() does that: the regenerated table for the code, false for the plugin before the repair. *)
 Definition p_die_with (unsched : bool) (s : pst) : pst :=
   PS (if unsched then filter (fun e => negb (dhas (s_name e) (p_dict s))) (p_sched s) else p_sched s)
-     (p_counter s) (p_now s) (p_gen s) (p_dict s) (p_dict s) (p_ncmd s) (p_log s) false (p_done s) (p_ign s).
+     (p_counter s) (p_now s) (p_gen s) (p_dict s) (p_dict s) (p_ncmd s) (p_log s) false (p_done s) (p_ign s) (p_bad s).
 
 Definition key_int (k : name) : option N := match k with Auto n => Some n | Named _ => None end.
 
@@ -113,20 +114,23 @@ Definition restore_one (s : pst) (kv : name * pev) : pst :=
 (* a new instance: __init__: self.events = {}; _restoreEvents *)
 Definition p_load (s : pst) : pst :=
   fold_left restore_one (p_pickle s)
-            (PS (p_sched s) (p_counter s) (p_now s) (p_gen s + 1)%N [] (p_pickle s) (p_ncmd s) (p_log s) true (p_done s) (p_ign s)).
+            (PS (p_sched s) (p_counter s) (p_now s) (p_gen s + 1)%N [] (p_pickle s) (p_ncmd s) (p_log s) true (p_done s) (p_ign s) (p_bad s)).
 
 (* a scheduled function fires *)
 Definition p_fire (e : sent) (s : pst) : pst :=
   (* the function fires; when the code checks `self._isIgnored(msg)` and the user is ignored now, its effect (running the
      command, sending the reminder) is suppressed -- the one-shot still leaves self.events, the repeat still recurs *)
-  let suppressed := gen.T18.FIRE_CHECKS_IGNORED && p_ign s in
+  let bad := existsb (N.eqb (s_cmd e)) (p_bad s) && negb (s_rem e) in       (* callbacks.tokenize(command) raises SyntaxError *)
+  let suppressed := (gen.T18.FIRE_CHECKS_IGNORED && p_ign s) || bad in
   let logged := PS (p_sched s) (p_counter s) (p_now s) (p_gen s) (p_dict s) (p_pickle s) (p_ncmd s)
                    (if suppressed then p_log s else (p_now s, s_cmd e) :: p_log s) (p_loaded s)
-                   (match s_period e with None => s_cmd e :: p_done s | Some _ => p_done s end) (p_ign s) in
+                   (match s_period e with None => s_cmd e :: p_done s | Some _ => p_done s end) (p_ign s) (p_bad s) in
   match s_period e with
   | Some period =>                                        (* wrapper: f(); addEvent(wrapper, time.time() + t, name) *)
       set_sched (SE (p_now s + period) (s_name e) (s_gen e) (s_cmd e) false (Some period) :: p_sched logged) logged
   | None =>
+      if bad && negb gen.T18.DELETE_BEFORE_TOKENIZE then s       (* the SyntaxError comes before `del self.events[...]`: the entry stays listed *)
+      else
       if N.eqb (s_gen e) (p_gen s) then
         (* del self.events[str(f.eventId)] -- before running the command, after sending the reminder *)
         if dhas (s_name e) (p_dict s) then set_dict (ddel (s_name e) (p_dict s)) logged
@@ -154,7 +158,7 @@ Fixpoint p_loop (fuel : nat) (s : pst) : pst :=
 
 Inductive pop :=
 | QAdd (secs : Z) | QRemind (secs : Z) | QRepeat (k : N) (period delay : Z) | QRemove (key : name)
-| QReload | QRestart | QAdvance (d : N) | QRun | QUnload | QLoad | QIgnore (b : bool).
+| QReload | QRestart | QAdvance (d : N) | QRun | QUnload | QLoad | QIgnore (b : bool) | QAddBad (secs : Z).
 
 (* commands exist only while the plugin is loaded; unload = die(); load = a new instance reading the pickle;
    reload = unload + load; restart = die(), a new process (empty schedule, counter 0), load *)
@@ -176,10 +180,13 @@ Definition pstep_with (unsched : bool) (o : pop) (s : pst) : pst :=
   | QReload => if p_loaded s then p_load (p_die_with unsched s) else s
   | QRestart =>
       let s1 := if p_loaded s then p_die_with unsched s else s in
-      p_load (PS [] 0%N (p_now s1) (p_gen s1) (p_dict s1) (p_pickle s1) (p_ncmd s1) (p_log s1) false (p_done s1) (p_ign s1))
-  | QAdvance d => PS (p_sched s) (p_counter s) (p_now s + Z.of_N d) (p_gen s) (p_dict s) (p_pickle s) (p_ncmd s) (p_log s) (p_loaded s) (p_done s) (p_ign s)
+      p_load (PS [] 0%N (p_now s1) (p_gen s1) (p_dict s1) (p_pickle s1) (p_ncmd s1) (p_log s1) false (p_done s1) (p_ign s1) (p_bad s1))
+  | QAdvance d => PS (p_sched s) (p_counter s) (p_now s + Z.of_N d) (p_gen s) (p_dict s) (p_pickle s) (p_ncmd s) (p_log s) (p_loaded s) (p_done s) (p_ign s) (p_bad s)
   | QRun => p_loop (Datatypes.S (length (p_sched s))) s
-  | QIgnore b => PS (p_sched s) (p_counter s) (p_now s) (p_gen s) (p_dict s) (p_pickle s) (p_ncmd s) (p_log s) (p_loaded s) (p_done s) b
+  | QIgnore b => PS (p_sched s) (p_counter s) (p_now s) (p_gen s) (p_dict s) (p_pickle s) (p_ncmd s) (p_log s) (p_loaded s) (p_done s) b (p_bad s)
+  | QAddBad secs =>
+      let s0 := PS (p_sched s) (p_counter s) (p_now s) (p_gen s) (p_dict s) (p_pickle s) (p_ncmd s) (p_log s) (p_loaded s) (p_done s) (p_ign s) (p_ncmd s :: p_bad s) in
+      if p_loaded s0 then let '(c, s1) := fresh_cmd s0 in fst (p_add (p_now s0 + secs) c false None s1) else snd (fresh_cmd s0)
   end.
 
 Definition pstep := pstep_with gen.T18.DIE_UNSCHEDULES.
@@ -211,6 +218,7 @@ Definition gPop (v : value) : pop :=
   | 8%N => QUnload
   | 9%N => QLoad
   | 10%N => QIgnore (gB (nth_v 1 v))
+  | 11%N => QAddBad (gZ (nth_v 1 v))
   | _ => QRun
   end.
 
